@@ -106,6 +106,8 @@ def check(case):
     if case.get("n_train") == "same_buffer":
         Xtrain = (Xtrain.astype(Xin.dtype) if Xin.dtype.kind == "i" else Xtrain).copy()
     history = case.get("history") if case.get("n_train") != "same_buffer" else None
+    if K.rejects_other_width(lambda: K.build(K.detector_spec("MovingWindow", params)), Xtrain, Xin):
+        return {"nontrivial": False, "classes": ["other_number_of_columns_rejected"]}
     with sut("MovingWindow.fit/transform_scores/predict"):
         spec_ = K.detector_spec("MovingWindow", params)
         det = K.build_with_history(spec_, Xtrain, history)
